@@ -18,6 +18,13 @@ type Control struct {
 	Want     string   // substring expected in construct or detail of the new violation
 	Patterns []string // packages to load for this control (default: the property's)
 	Quick    bool     // run in the quick tier as well
+	// Patch: instead of Old/New, the path of a unified diff applied in memory
+	// (an independently written variant of the repository: a seeded change
+	// from /verif/seeded or a refactoring from /verif/refactors).
+	Patch string
+	// MayMiss: a seeded change that is documented as not detected (value-level);
+	// recorded, never a failure.
+	MayMiss bool
 }
 
 // ControlResult is what happened when a control was run.
@@ -53,26 +60,37 @@ func RunControl(repo string, spec *Spec, c Control, baseline map[string]bool) Co
 	if c.Fire {
 		res.Expect = "fire"
 	}
-	abs := filepath.Join(repo, c.File)
-	src, err := ReadRepoFile(repo, c.File)
-	if err != nil {
-		res.Outcome, res.Detail = "skipped", "file not present: "+c.File
-		return res
-	}
-	text := string(src)
-	edits := append([][2]string{{c.Old, c.New}}, c.Edits...)
-	for _, e := range edits {
-		if !strings.Contains(text, e[0]) {
-			res.Outcome, res.Detail = "skipped", "anchor text no longer present in "+c.File
+	var overlay map[string][]byte
+	if c.Patch != "" {
+		ov, err := ApplyPatchFile(repo, c.Patch)
+		if err != nil {
+			res.Outcome, res.Detail = "skipped", "patch does not apply to this tree: "+firstLine(err.Error())
 			return res
 		}
-		text = strings.Replace(text, e[0], e[1], 1)
+		overlay = ov
+	} else {
+		abs := filepath.Join(repo, c.File)
+		src, err := ReadRepoFile(repo, c.File)
+		if err != nil {
+			res.Outcome, res.Detail = "skipped", "file not present: "+c.File
+			return res
+		}
+		text := string(src)
+		edits := append([][2]string{{c.Old, c.New}}, c.Edits...)
+		for _, e := range edits {
+			if !strings.Contains(text, e[0]) {
+				res.Outcome, res.Detail = "skipped", "anchor text no longer present in "+c.File
+				return res
+			}
+			text = strings.Replace(text, e[0], e[1], 1)
+		}
+		overlay = map[string][]byte{abs: []byte(text)}
 	}
 	pats := c.Patterns
 	if len(pats) == 0 {
 		pats = spec.Patterns
 	}
-	p, err := Load(LoadOpts{Repo: repo, Patterns: pats, Overlay: map[string][]byte{abs: []byte(text)}})
+	p, err := Load(LoadOpts{Repo: repo, Patterns: pats, Overlay: overlay})
 	if err != nil {
 		res.Outcome, res.Detail = "skipped", "overlay does not build on this tree: "+firstLine(err.Error())
 		return res
@@ -92,9 +110,17 @@ func RunControl(repo string, spec *Spec, c Control, baseline map[string]bool) Co
 			fresh = append(fresh, o)
 		}
 	}
+	if c.MayMiss {
+		if len(fresh) == 0 {
+			res.Outcome, res.Detail = "missed-as-documented", "value-level change: no structural rule of this check sees it"
+		} else {
+			res.Outcome, res.Detail = "fired", fresh[0].Construct+" @ "+fresh[0].Pos
+		}
+		return res
+	}
 	if c.Fire {
 		for _, o := range fresh {
-			if o.Rule == c.Rule && (c.Want == "" || strings.Contains(o.Construct, c.Want) || strings.Contains(o.Detail, c.Want)) {
+			if (c.Rule == "" || o.Rule == c.Rule) && (c.Want == "" || strings.Contains(o.Construct, c.Want) || strings.Contains(o.Detail, c.Want)) {
 				res.Outcome = "fired"
 				res.Detail = o.Construct + " @ " + o.Pos
 				return res
